@@ -49,5 +49,5 @@ class ProcessSandbox(SimpleCodemod):
             updated_node,
             "safe_command",
             new_func="run",
-            replacement_args=[cst.Arg(original_node.func), *original_node.args],
+            replacement_args=[cst.Arg(updated_node.func), *updated_node.args],
         )
